@@ -106,7 +106,7 @@ def run_sweep(tier, select=None, N=None):
             out.append(job("Run", f"run_{name}_n3", run_consts(3, **kw), RUN_INVS, view="View", workers=2, heap="3g"))
             kw["maxfail"] = 1
         out.append(job("Run", f"run_{name}_n{n}", run_consts(n, **kw), RUN_INVS, view="View",
-                       workers=4 if tier == "thorough" else 2, heap="6g" if tier == "thorough" else "3g",
+                       workers=5 if tier == "thorough" else 2, heap="6g" if tier == "thorough" else "3g",
                        coverage=tier != "thorough", timeout=2400))
     return out
 
